@@ -68,7 +68,8 @@ class World:
             dev, node = self.install.sgio_device()
             self.by_dev[node] = t
         else:
-            dev = self.install.iscsi_device("iscsi://10.0.0.1:3260/iqn.2003-01.org.example:t%d/%d" % (self.n, self.n))
+            # several logical units behind one portal/target/initiator, as real targets have
+            dev = self.install.iscsi_device("iscsi://10.0.0.1:3260/iqn.2003-01.org.example:shared/%d" % self.n)
             self.by_dev[self.n] = t
         return dev, t
 
@@ -115,6 +116,25 @@ def name_of(ops):
     return repr(ops)
 
 
+def use_service_action_commands(ctx, s, dev, tgt, wit):
+    """readcapacity16 (9Eh) and reportpriority (A3h) look their opcode up by key suffix in the attached device's own table:
+    one command with that opcode if the table has such a key, otherwise refused with nothing sent"""
+    for meth, suffix, op in (("readcapacity16", "9E", 0x9E), ("reportpriority", "A3", 0xA3)):
+        has = any(k.endswith(suffix) for k in dev.opcodes.keys)
+        n0 = len(tgt.log)
+        try:
+            getattr(s, meth)()
+            raised = None
+        except Exception as e:  # noqa: BLE001
+            raised = e
+        sent = [r["cdb"][0] for r in tgt.log[n0:]]
+        ctx.count("service_action_calls")
+        if has and sent != [op]:
+            ctx.fail("C16:service_action_command_not_sent.%s" % meth, "%s on %s sent %r" % (meth, name_of(dev.opcodes), sent), wit)
+        if not has and sent:
+            ctx.fail("C16:command_from_another_command_set.%s" % meth, "%s sent opcode(s) %r although the attached device's set (%s) does not define it" % (meth, sent, name_of(dev.opcodes)), wit)
+
+
 def use_primary(ctx, s, tgt, wit):
     n0 = len(tgt.log)
     try:
@@ -154,6 +174,7 @@ def run(shard, ctx):
                 w.close(dev)
         return
     if shard["kind"] == "revisit":
+        run_attach_faults(ctx, w, SCSI, t)
         return run_revisit(ctx, w, SCSI, t, rng)
     seqs = []
     if shard["kind"] == "pairs":
@@ -192,12 +213,39 @@ def run(shard, ctx):
                     ctx.fail("C16:earlier_device_changed", "device attached earlier (type %02Xh) changed its command set" % ty0, dict(wit, step=i))
             if s.device is not dev:
                 ctx.fail("C16:facade_not_reattached", "facade still points to the earlier device", dict(wit, step=i))
+            use_service_action_commands(ctx, s, dev, tgt, dict(wit, step=i))
             devs.append((dev, tgt, devtype, dev.opcodes))
         if ok and devs:
             use_primary(ctx, s, devs[-1][1], wit)
         for d in devs:
             w.close(d[0])
         ctx.count("histories")
+
+
+def run_attach_faults(ctx, w, SCSI, t):
+    """the first k INQUIRYs of an attach are answered with CHECK CONDITION (pending UNIT ATTENTIONs, NOT READY ...):
+    attach either fails, or -- if the library retries -- ends with the type a GOOD INQUIRY really reported"""
+    from vmon.spec import sense as SN
+
+    for devtype in (0x01, 0x05, 0x08, 0x00, 0x1F):
+        for k in (1, 2, 3):
+            for key, asc in ((6, 0x29), (6, 0x28), (2, 0x04), (5, 0x24)):
+                dev, tgt = w.new_device(devtype, 0)
+                for i in range(k):
+                    tgt.faults[i] = (2, SN.build(0x70, 0, key, asc, i, 18))
+                wit = {"transport": t, "types": [devtype], "inquiry_failures": k, "sense": [key, asc]}
+                ctx.case((t, "attach-faults", devtype, k, key, asc), True, sample=wit if ctx.want_sample() else None)
+                ctx.count("attach_fault_cases")
+                try:
+                    SCSI(dev)
+                    ok = True
+                except Exception:  # noqa: BLE001
+                    ok = False
+                good = [r for r in tgt.log if r.get("name") == "Inquiry" and "fault" not in r]
+                if ok and (not good or getattr(dev, "devicetype", None) != devtype or (EXPECT.get(devtype) and name_of(dev.opcodes) != EXPECT[devtype])):
+                    ctx.fail("C16:attach_succeeds_without_inquiry_data", "attach returned normally after %d failed INQUIRYs and %d good ones: devicetype=%r set=%s, target is type %02Xh"
+                             % (k, len(good), getattr(dev, "devicetype", None), name_of(dev.opcodes), devtype), wit)
+                w.close(dev)
 
 
 def run_revisit(ctx, w, SCSI, t, rng):
